@@ -34,6 +34,22 @@ def rand_traj(rng, nseg=None, allow_zero_dur=False, degs=None, use_yaw=None, max
     return dict(scale=scale, use_yaw=(rng.random() < 0.5) if use_yaw is None else use_yaw, start=start, segs=segs)
 
 
+def long_prefix(rng, x, y, z, min_bytes=65700, deg=7, flat_z=True, dur=None):
+    """segments that hover around (x, y, z) (stored units) and end exactly there, long enough to push whatever follows
+    beyond byte offset 65536 of the block (offsets kept in 16 bits by mistake wrap there)"""
+    per = 3 + 2 * deg * (3 if flat_z else 4) if not flat_z else 3 + 2 * deg * 2
+    n = min_bytes // per + 1
+    segs = []
+    for i in range(n):
+        last = (i == n - 1)
+        def pts(c):
+            v = [max(-32768, min(32767, c + rng.randint(-20, 20))) for _ in range(deg)]
+            v[-1] = c if last else v[-1]
+            return v
+        segs.append(dict(dur=(dur if dur is not None else rng.choice([10, 20, 50])), x=pts(x), y=pts(y), z=([] if flat_z else pts(z)), yaw=[]))
+    return segs
+
+
 def bits_of_len(l):
     return {0: 0, 1: 1, 3: 2, 7: 3}[len(l)]
 
